@@ -231,4 +231,137 @@ def editFields {α : Type} (n : Nat) (aliases : List (String × Nat)) (own : Str
     (h : List α) (edits : List (String × α)) : List α :=
   edits.foldl (fun h e => h.set (fieldLoc n aliases own e.1) e.2) h
 
+/-! ### named link-attribute slots written inside value-returning methods (round 4)
+
+Measures such as `SpatialNetwork.distance`, `ClimateNetwork.inv_correlation_distance`,
+`TsonisClimateNetwork.correlation` and everything built on `ClimateNetwork._weighted_metric` store a
+link attribute on the object and hand its *name* to a generic measure.  `translate/attrs_C06.py`
+turns the body of every public zero-argument value-returning method of every class into a list of
+steps; generating expressions are numbered (`gen`). -/
+
+inductive AStep
+  | ensure (slot : String) (gen : Nat)   -- `if not self.find_link_attribute(S): self.set_link_attribute(S, E)`
+  | store (slot : String) (gen : Nat)    -- `self.set_link_attribute(S, E)`
+  | use (slot : String)                  -- `self.<measure>(S)`: the value depends on the slot's content
+  | once (key : String) (body : List (String × Nat))  -- `self.m()`, `m` cached: stores on the first call only
+  | other (why : String)                 -- an access the translator could not classify
+deriving Repr, DecidableEq
+
+/-- the object's link attributes (most recent binding first) and the cached methods already computed -/
+structure AState where
+  slots : List (String × Nat)
+  done : List String
+deriving Repr, DecidableEq
+
+def AState.init : AState := ⟨[], []⟩
+
+def slotGet (s : String) : List (String × Nat) → Option Nat
+  | [] => none
+  | (k, g) :: t => if k = s then some g else slotGet s t
+
+/-- one step; the second component lists what the step observes (content of the slot read; `none`
+= the attribute does not exist, the real code raises) -/
+def execStep (st : AState) : AStep → AState × List (Option Nat)
+  | .ensure s g =>
+      (if (slotGet s st.slots).isSome then st else { st with slots := (s, g) :: st.slots }, [])
+  | .store s g => ({ st with slots := (s, g) :: st.slots }, [])
+  | .use s => (st, [slotGet s st.slots])
+  | .once k body =>
+      if st.done.contains k then (st, [])
+      else ({ slots := body.reverse ++ st.slots, done := k :: st.done }, [])
+  | .other _ => (st, [])
+
+def execSteps (st : AState) : List AStep → AState × List (Option Nat)
+  | [] => (st, [])
+  | a :: t =>
+      let r := execStep st a
+      let r2 := execSteps r.1 t
+      (r2.1, r.2 ++ r2.2)
+
+def findSteps (q : String) : List (String × List AStep) → Option (List AStep)
+  | [] => none
+  | (n, steps) :: t => if n = q then some steps else findSteps q t
+
+/-- a query sequence on one object: per query, what it observed -/
+def arun (tbl : List (String × List AStep)) (st : AState) : List String → List (List (Option Nat))
+  | [] => []
+  | q :: qs =>
+    match findSteps q tbl with
+    | none => [] :: arun tbl st qs
+    | some steps => let r := execSteps st steps; r.2 :: arun tbl r.1 qs
+
+/-- state after a query sequence -/
+def afinal (tbl : List (String × List AStep)) (st : AState) : List String → AState
+  | [] => st
+  | q :: qs =>
+    match findSteps q tbl with
+    | none => afinal tbl st qs
+    | some steps => afinal tbl (execSteps st steps).1 qs
+
+/-- what the query observes on a fresh object -/
+def afresh (tbl : List (String × List AStep)) (q : String) : List (Option Nat) :=
+  match findSteps q tbl with
+  | none => []
+  | some steps => (execSteps AState.init steps).2
+
+def stepWrites : AStep → List (String × Nat)
+  | .ensure s g => [(s, g)]
+  | .store s g => [(s, g)]
+  | .once _ body => body
+  | _ => []
+
+def stepOnces : AStep → List (String × List (String × Nat))
+  | .once k body => [(k, body)]
+  | _ => []
+
+def writesOf (tbl : List (String × List AStep)) : List (String × Nat) :=
+  tbl.flatMap fun m => m.2.flatMap stepWrites
+
+def oncesOf (tbl : List (String × List AStep)) : List (String × List (String × Nat)) :=
+  tbl.flatMap fun m => m.2.flatMap stepOnces
+
+/-- every slot has one generating expression -/
+def slotsConsistent (w : List (String × Nat)) : Bool :=
+  w.all fun p => w.all fun q => !(p.1 == q.1) || p.2 == q.2
+
+def oncesConsistent (o : List (String × List (String × Nat))) : Bool :=
+  o.all fun p => o.all fun q => !(p.1 == q.1) || p.2 == q.2
+
+/-- every slot a method reads was written (or made sure of) earlier in the same method; no
+unclassified access.  `p` = slots known to exist. -/
+def covered : List String → List AStep → Bool
+  | _, [] => true
+  | p, .ensure s _ :: t => covered (s :: p) t
+  | p, .store s _ :: t => covered (s :: p) t
+  | p, .use s :: t => p.contains s && covered p t
+  | p, .once _ body :: t => covered (body.map (·.1) ++ p) t
+  | _, .other _ :: _ => false
+
+/-- the decidable check applied to the translator's table of one class -/
+def attrTableOK (tbl : List (String × List AStep)) : Bool :=
+  slotsConsistent (writesOf tbl) && oncesConsistent (oncesOf tbl) &&
+    tbl.all fun m => covered [] m.2
+
+def attrOffenders (tbl : List (String × List AStep)) : List String :=
+  let w := writesOf tbl
+  (tbl.filter fun m => !(covered [] m.2) ||
+    !((m.2.flatMap stepWrites).all fun p => w.all fun q => !(p.1 == q.1) || p.2 == q.2)).map (·.1)
+
+/-- on a network without links `set_link_attribute` iterates over an empty edge sequence: nothing
+is stored, the attribute never comes into existence.  The table of such an object is the class
+table with every write dropped. -/
+def isRead : AStep → Bool
+  | .use _ => true
+  | .other _ => true
+  | _ => false
+
+def linkless (tbl : List (String × List AStep)) : List (String × List AStep) :=
+  tbl.map fun m => (m.1, m.2.filter isRead)
+
+/-- slots sorted by first appearance, for the driver -/
+def showSlots (st : AState) : List (String × Nat) :=
+  st.slots.reverse.foldl (fun acc p =>
+    if acc.any (fun q => q.1 == p.1) then acc.map (fun q => if q.1 == p.1 then p else q)
+    else acc ++ [p]) []
+
 end Pyunicorn.Pure
